@@ -21,7 +21,7 @@ CLASSIFY = None
 
 def streams(ctx):
     n = 8 if ctx.thorough else 1
-    return [("tagged", "tagged", 700 * n), ("tagged-2hap", "tagged2", 200 * n), ("homologous-groups", "twohap", 200 * n), ("tagged-slivers", "slivers", 150 * n), ("untagged", "script", 150 * n)]
+    return [("tagged", "tagged", 700 * n), ("tagged-2hap", "tagged2", 200 * n), ("homologous-groups", "twohap", 200 * n), ("tagged-slivers", "slivers", 150 * n), ("unloc-rich", "unlocs", 300 * n), ("untagged", "script", 150 * n)]
 
 
 def gen(ctx, kind):
